@@ -6,7 +6,7 @@ from vmc.gen import scenes
 from vmc.oracles import aff, flatten, paths, picture, shaper
 from vmc.props import common
 
-KEEP = ("outline", "place", "where", "donor_paint", "copy_paint", "grp", "stack", "nglyphs", "vb_size", "rad_geom", "lin_vec", "twin", "grad_twice")
+KEEP = ("outline", "place", "where", "donor_paint", "copy_paint", "grp", "stack", "nglyphs", "vb_size", "rad_geom", "lin_vec", "twin", "grad_twice", "vb_b")
 DIMS = {k: scenes.DIMS[k] for k in KEEP}
 DIMS["tol"] = [0.1, 0.5, 0.01, 1e-9, 0]
 DIMS["fmt"] = ["glyf_colr_1", "glyf_colr_0", "picosvg"]
@@ -49,6 +49,8 @@ def execute(dev):
     if dev.get("kind") == "cli":
         return exec_cli(dev)
 
+    if dev.get("_") == "picosvg":  # a state of the picosvg-base lattice (also when replayed from a file)
+        dev = dict(dev, fmt="picosvg")
     dev = {k: v for k, v in dev.items() if k != "_"}
     a = lattice.full(FULL, dev)
     glyphs, over = scenes.mk(a)
@@ -150,6 +152,12 @@ def run(report, tier, only=None):
     selftest.run(report)
     k = int(only) if only and only.isdigit() else K[tier]
     devs, results = ([], []) if only == "cli" else lattice.explore(report, DIMS, k, execute, relevant=scenes.relevant, timeout=300)
+    if only != "cli":
+        # OT-SVG reuse (<use>, paint attributes moved between the path and its uses) has its own code: a second lattice with
+        # picosvg as the base format, so that two scene deviations are explored under it as well
+        dims_svg = {k_: v for k_, v in DIMS.items() if k_ != "fmt"}
+        _, res2 = lattice.explore(report, dims_svg, k, execute, relevant=scenes.relevant, timeout=300, tag="picosvg")
+        results = list(results) + list(res2)
     if only is None or only == "cli":
         from vmc.core import listing
 
